@@ -122,7 +122,11 @@ class bspline(object):
             #
             bkpt = bkpt.astype('d')
         imin = bkpt.argmin()
-        imax = bkpt.argmax()
+        #
+        # The last copy of a repeated highest breakpoint, so that moving
+        # it up to x.max() keeps the breakpoints in order.
+        #
+        imax = bkpt.size - 1 - bkpt[::-1].argmax()
         if x.min() < bkpt[imin]:
             warn('Lowest breakpoint does not cover lowest x value: changing.',
                  PydlutilsUserWarning)
